@@ -71,7 +71,7 @@ func c16Run(store quickfix.MessageStore, reopen func() quickfix.MessageStore, pf
 		verifAssert(err == nil && len(got) == 1 && verifEqBytes(got[0], b), pfx+"-history-read-back")
 		model.msgs, model.last = append(model.msgs, c16Msg{10, b}), 10
 	}
-	K := 3 + verifTier()
+	K := 3
 	nops := 8
 	for k := 0; k < K; k++ {
 		op := verifConc(ndInt("op", 0, nops-1))
